@@ -442,11 +442,17 @@ def prep_fallback_scenario(rng, sid):
         w_ops += [f'dng {iw} {xw}', 'payrd 0', 'payrd 0', f'dtor {iw}']
     # the writer comes back for a second exclusive section while B may still be inside its section
     w_ops += [f'lock X {xw} 0', f'paywr 0 {g.nextval()}', f'paywr 0 {g.nextval()}', f'dtor {xw}']
-    first = rng.choice(['S', 'S', 'S', 'SIX', 'X', 'Xc', 'Xc'])
+    first = rng.choice(['S', 'S', 'S', 'SIX', 'X', 'Xc', 'Xc', 'own'])
     if first == 'Xc':
         # B commits a whole exclusive section between the fallback's load and its CAS: the CAS fails on a word that is
         # completely free again but carries another version
         b_ops = [f'lock X {xb} 0', f'paywr 0 {g.nextval()}', f'dtor {xb}']
+    elif first == 'own':
+        # nobody interferes with the fallback: it takes its shared grant; the owning guard is then moved, the moved-from
+        # object dies, and the survivor is validated after the writer tried to come back
+        b_ops = ['payrd 0'] if False else [f'lock S {sb} 0', 'payrd 0', f'dtor {sb}']
+        a_ops = [f'prep {c} 0', f'mctor {c2} {c}', f'dtor {c}', 'payrd 0', 'payrd 0', f'cverify {c2}', 'payrd 0',
+                 f'cverify {c2}', f'bool {c2}', f'dtor {c2}']
     elif first == 'S':
         b_ops = [f'lock S {sb} 0'] + ['payrd 0'] * rng.choice([3, 8, 12]) + [f'dtor {sb}']
     elif first == 'SIX':
@@ -458,7 +464,11 @@ def prep_fallback_scenario(rng, sid):
     sched = [2] * 3
     sched += [0] * (11 + rng.randrange(0, 4))
     sched += [2] * (2 * hold + 2)
-    if first == 'Xc':
+    if first == 'own':
+        sched += [0] * 3                          # load, CAS (owning guard), local code up to the next atomic operation
+        sched += [2] * rng.choice([6, 7, 8])      # the writer asks for its second exclusive section
+        sched += [0] * 8
+    elif first == 'Xc':
         sched = [1] + sched                      # B's start quantum first, so that its section fits the window exactly
         sched += [0] * 1                         # the fallback's load sees the free word; its CAS is next
         sched += [1] * rng.choice([5, 5, 6])     # load, CAS, two payload stores, release (+ one more)
